@@ -183,15 +183,16 @@ Fixpoint pll_queries (s : pll) (us : list upd) : list (option f64) :=
      otherwise.  (For offset = MinInt64 the code steps by MinInt64+1:
      Inv(Inv(MinInt64)); accepted and reported as a boundary observation.)
    - after that update there is never a Step in this epoch; an update makes
-     either no call or exactly one Adjust.  An Adjust has a finite frequency;
-     when less than 2^32 s have passed since the previous update its duration
-     is > 0, at most the elapsed time rounded up to whole seconds, and
-     |offset| <= 500 ppm of the duration (so no Adjust at an unchanged
-     reading).  Once tracking (an Adjust was made in this epoch) every update
+     either no call or exactly one Adjust.  An Adjust has a finite frequency
+     and a duration > 0 (no bound on the gap: the 292-year wrap of the real
+     code is rejected here), its duration is at most the elapsed time rounded
+     up to whole seconds and |offset| <= 500 ppm of the duration (so no Adjust
+     at an unchanged reading); see adjust_ok for the float slack above 2^32 s.  Once tracking (an Adjust was made in this epoch) every update
      at a later reading slews, i.e. makes its Adjust; the moment tracking
      begins is not fixed by the property.
-   - no panic while clock readings are non-decreasing; once a reading went
-     backwards the property says nothing and the rest is accepted. *)
+   - no panic while the readings of the epoch are non-decreasing; after a
+     backward reading within an epoch the property says nothing until the next
+     epoch change, which restarts the judgement as it restarts the controller. *)
 
 Record ost := mkOst {
   o_started : bool;
@@ -216,13 +217,23 @@ Definition step_arg_ok (off x : Z) : bool :=
 Definition step_due (o : ost) (u : upd) : bool :=
   (step_wait_ns <? u_now u - o_start o) && fgt (u_weight u) c_3.
 
+(* largest gap between two updates for which int64(ceil(dt)*1e9) does not wrap *)
+Definition wrap_gap_ns : Z := 9223372036 * sec_ns.
+
+(* every Adjust: finite frequency and duration > 0, whatever the gap.  Below
+   2^32 s since the previous update the duration is at most the elapsed time
+   rounded up to whole seconds and |offset| <= 500 ppm of the duration, in exact
+   integer nanoseconds; from 2^32 s on ceil(dt)*1e9 is no longer exact in
+   float64, so the same two clauses carry the rounding slack (1024 ns on the
+   duration, 1 ns on the offset). *)
 Definition adjust_ok (o : ost) (u : upd) (off dur : Z) (freq : f64) : bool :=
-  fis_finite freq
-  && (if u_now u - o_prev o <? max_gap_ns then
-        (0 <? dur)
-        && (dur <=? sec_ns * ceil_div (u_now u - o_prev o) sec_ns)
-        && (2000 * Z.abs off <=? dur)
-      else true).
+  let gap := u_now u - o_prev o in
+  let c := ceil_div gap sec_ns in
+  fis_finite freq && (0 <? dur)
+  && (if gap <? max_gap_ns then
+        (dur <=? sec_ns * c) && (2000 * Z.abs off <=? dur)
+      else
+        (dur <=? sec_ns * c + 1024) && (Z.abs off <=? 500000 * c + 1)).
 
 Definition no_call (evs : list event) : bool := match evs with [] => true | _ => false end.
 
@@ -242,14 +253,17 @@ Definition ost_calls (o : ost) (u : upd) (evs : list event) : bool * bool * bool
     | _ => (false, true, o_slewing o)
     end.
 
-(* one update: returns (accepted, next oracle state) *)
+(* one update: returns (accepted, next oracle state).  Readings have to be
+   non-decreasing only within an epoch: the update that observes a new epoch
+   restarts everything, whatever the clock did in between (a step backwards
+   included). *)
 Definition ost_step (o : ost) (u : upd) (evs : list event) : bool * ost :=
-  let mono := o_mono o && (negb (o_started o) || (o_prev o <=? u_now u)) in
-  if negb mono then
-    (true, mkOst true false (u_now u) (u_epoch u) (o_start o) (o_decided o) (o_slewing o))
-  else if negb (o_started o) || negb (o_epoch o =? u_epoch u) then
+  if negb (o_started o) || negb (o_epoch o =? u_epoch u) then
     (* first update / new epoch observed: restart, no call allowed *)
     (no_call evs, mkOst true true (u_now u) (u_epoch u) (u_now u) false false)
+  else if negb (o_mono o && (o_prev o <=? u_now u)) then
+    (* a reading went backwards within the epoch: the property says nothing until the next epoch *)
+    (true, mkOst true false (u_now u) (u_epoch u) (o_start o) (o_decided o) (o_slewing o))
   else
     let '(ok, dec, sl) := ost_calls o u evs in
     (ok, mkOst true true (u_now u) (u_epoch u) (o_start o) dec sl).
